@@ -65,6 +65,9 @@ func c05Step(x *engine.Exec) []engine.Failure {
 				if valueChangeAfterReward(x) {
 					return "reward-pool-short"
 				}
+				if anyRoundedUp(s) {
+					return "payout-on-rounded-up-token-amount"
+				}
 				return ""
 			case (strings.Contains(e, "insufficient delegation shares") || strings.Contains(e, "insufficient tokens")) && D != nil && D.Sign() > 0 && D.Cmp(ratI(1)) < 0:
 				return "full-exit-below-one-delegator-share"
@@ -159,6 +162,17 @@ func needsMoreWholeShares(p world.Pos, D, vt *big.Rat) bool {
 	slack := ratMul(world.RatInt(p.Reported), big.NewRat(1, 1000000000000000000))
 	fl := new(big.Rat).SetInt(world.Floor(ratAdd(needed, slack)))
 	return fl.Cmp(p.Shares) > 0
+}
+
+// anyRoundedUp: some position's token amount as used by the reward payout (floor(value + 0.01)) exceeds its exact value.
+// A claim pays index x that rounded-up amount, so the positions together can be owed more than the pool received.
+func anyRoundedUp(s *world.Snap) bool {
+	for _, q := range s.Pos {
+		if world.RatInt(q.Reported).Cmp(q.Value) > 0 {
+			return true
+		}
+	}
+	return false
 }
 
 // valueChangeAfterReward: did a slash or a block (take-rate deduction, rebalancing settlement) follow a reward
